@@ -297,7 +297,12 @@ class Input(object):
                 self.script_type = script.script_types[0]
         if self.locking_script and not self.signatures:
             ls = Script.parse_bytes(self.locking_script, is_locking=True, strict=strict)
-            self.public_hash = self.public_hash if not ls.public_hash else ls.public_hash
+            # The script hash in the P2SH locking script of a nested segwit input is not the hash of its key or
+            # witness script
+            nested = ls.script_types[0] == 'p2sh' and \
+                (self.witness_type == 'p2sh-segwit' or self.script_type in ['p2sh_p2wpkh', 'p2sh_p2wsh'])
+            if ls.public_hash and not nested:
+                self.public_hash = ls.public_hash
             if ls.script_types[0] in ['p2wpkh', 'p2wsh']:
                 self.witness_type = 'segwit'
         self.sigs_required = sigs_required if sigs_required else 1
